@@ -4,6 +4,14 @@
 //! integer results are computed in i128 and truncated, division results are *checked* with the
 //! division lemma instead of recomputed.
 #![allow(dead_code)]
+/// `crate::vv![a, b, ..]` writes its elements as ONE array value (> 16 bytes), after which CBMC no longer
+/// recovers the tags of the elements; pushing them one by one keeps every 16-byte value resolved.
+/// Capacity 4 up front: growing a Vec goes through `realloc`, which has the same effect.
+#[macro_export]
+macro_rules! vv {
+    () => { Vec::with_capacity(4) };
+    ($($x:expr),+ $(,)?) => {{ let mut v = Vec::with_capacity(4); $( v.push($x); )+ v }};
+}
 use crate::instruction::local_variable::{LocalVariable, LocalVariables};
 use crate::instruction::Instruction;
 use crate::variable::{Mut, Type, Variable};
@@ -327,14 +335,14 @@ pub fn real(i: Ty) -> Type {
         10 => Type::Array(Arc::new(real(t.a))),
         11 => Type::Mut(Arc::new(real(t.a))),
         12 => {
-            let mut v = vec![real(t.a), real(t.b)];
+            let mut v = crate::vv![real(t.a), real(t.b)];
             if t.c != NONE {
                 v.push(real(t.c));
             }
             Type::Tuple(v.into())
         }
         13 => {
-            let mut v = vec![real(t.a)];
+            let mut v = crate::vv![real(t.a)];
             if t.b != NONE {
                 v.push(real(t.b));
             }
@@ -359,7 +367,7 @@ pub fn real(i: Ty) -> Type {
             }
             acc
         }
-        18 => Type::Tuple(vec![real(t.a)].into()),
+        18 => Type::Tuple(crate::vv![real(t.a)].into()),
         _ => panic!("bad descriptor"),
     }
 }
@@ -412,13 +420,13 @@ pub fn val(i: Ty, k: usize) -> Variable {
             let elements: Arc<[Variable]> = if k % 2 == 0 || desc(t.a).k == 6 {
                 Arc::from(Vec::new())
             } else {
-                Arc::from(vec![val(t.a, k / 2)])
+                Arc::from(crate::vv![val(t.a, k / 2)])
             };
             Variable::Array(Arc::new(Array::new_with_type(real(t.a), elements)))
         }
         11 => Variable::Mut(new_cell(real(t.a), val(t.a, k))),
         12 => {
-            let mut v = vec![val(t.a, k), val(t.b, k)];
+            let mut v = crate::vv![val(t.a, k), val(t.b, k)];
             if t.c != NONE {
                 v.push(val(t.c, k));
             }
@@ -445,7 +453,7 @@ pub fn val(i: Ty, k: usize) -> Variable {
             };
             val(m, k / n)
         }
-        18 => Variable::Tuple(vec![val(t.a, k)].into()),
+        18 => Variable::Tuple(crate::vv![val(t.a, k)].into()),
         _ => panic!("bad descriptor"),
     }
 }
